@@ -13,6 +13,7 @@ import (
 	"github.com/safing/portbase/database/query"
 	"github.com/safing/portbase/database/record"
 	"github.com/safing/portbase/database/storage"
+	"github.com/safing/portbase/formats/dsd"
 	"github.com/safing/portbase/verifsim/simkit"
 	"github.com/safing/portbase/verifsim/simrt"
 )
@@ -68,6 +69,7 @@ type WOp struct {
 	Seed  int    `json:"seed,omitempty"`
 	Flags int    `json:"flags,omitempty"` // 0 none 1 secret 2 crown 3 both
 	Arg   int    `json:"arg,omitempty"`
+	Raw   bool   `json:"raw,omitempty"` // put: the record is a wrapper of raw bytes (no fields: it matches queries without a condition only)
 }
 
 // pairs of prefixPool indices that no key of keyPool matches both
@@ -161,6 +163,7 @@ func genC14(rng *rand.Rand, tier string) *C14Plan {
 		n := 1 + rng.IntN(10)
 		for i := 0; i < n; i++ {
 			op := WOp{Kind: []string{"put", "put", "put", "delete", "get", "push", "sleep"}[rng.IntN(7)], Key: rng.IntN(len(keyPool)), Seed: rng.IntN(1 << 20), Arg: rng.IntN(len(c14Sleep))}
+			op.Raw = op.Kind == "put" && !hookActions && rng.IntN(6) == 0
 			if rng.IntN(4) == 0 {
 				op.Flags = rng.IntN(4)
 			}
@@ -260,6 +263,8 @@ func idOfLocked(r record.Record) string {
 	id := "?"
 	if acc != nil {
 		id, _ = acc.GetString("N")
+	} else if w, ok := r.(*record.Wrapper); ok && w.Format == dsd.RAW {
+		id = string(w.Data)
 	}
 	if r.Meta() != nil && r.Meta().IsDeleted() {
 		id += "#del"
@@ -495,6 +500,11 @@ func execC14(p *C14Plan, rc *simkit.RunCtx) {
 					nonce := fmt.Sprintf("n%d", nonceCounter)
 					f := fieldsFromSeed(op.Seed)
 					r := makeRecord(key, nonce, f, op.Seed%2 == 0)
+					if op.Raw {
+						f = Fields{NoAcc: true}
+						r, _ = record.NewWrapper(dbName+":"+key, &record.Meta{}, dsd.RAW, []byte(nonce))
+						rc.Probe("raw-record-written")
+					}
 					iface := database.NewInterface(&database.Options{Local: true, Internal: true, AlwaysMakeSecret: op.Flags&1 != 0, AlwaysMakeCrownjewel: op.Flags&2 != 0})
 					w := &wrec{Writer: wi, Kind: "put", Key: key, ID: nonce, F: f, Secret: op.Flags&1 != 0, Crown: op.Flags&2 != 0, Inv: simrt.Seq()}
 					s.writes = append(s.writes, w)
